@@ -55,7 +55,7 @@ def mutate(rng, args, kwargs, fn=None, slot=None):
     if isinstance(cur, dict) and "arr" in cur:
         sh = cur["shape"]
         m = rng.choice(["zero", "zero", "0d", "ndim-", "ndim+", "ndim+3", "ndim+3", "dtype", "shape", "none", "list", "object", "str", "one",
-                        "values", "values", "shape-"])
+                        "values", "values", "shape-", "wide", "wide"])
         if m == "zero":
             z = list(sh)
             z[rng.randrange(len(z))] = 0
@@ -97,6 +97,16 @@ def mutate(rng, args, kwargs, fn=None, slot=None):
                         -100000 if info.min < -100000 else 3]
             vals = list(cur["vals"])
             for i in rng.sample(range(len(vals)), max(1, len(vals) // rng.choice([1, 2, 8]))) if vals else []:
+                vals[i] = rng.choice(pool)
+            put(R.A(dt, sh, vals))
+        elif m == "wide":
+            # the same array in a wider integer type holding values that do not fit a C int (a label map read from a 64-bit file,
+            # unsigned ids with the top bit set): whatever narrows them must not let them through as indices
+            dt = rng.choice(["int64", "uint32", "uint64", "int64"])
+            pool = {"int64": [2 ** 31, 2 ** 32, 2 ** 32 + 1, 2 ** 63 - 1, -(2 ** 31) - 1, -(2 ** 63)],
+                    "uint32": [2 ** 31, 2 ** 32 - 1, 2 ** 31 + 5], "uint64": [2 ** 31, 2 ** 32, 2 ** 63, 2 ** 64 - 1]}[dt]
+            vals = [abs(int(v)) % 100 if not isinstance(v, bool) else int(v) for v in cur["vals"]]
+            for i in rng.sample(range(len(vals)), max(1, len(vals) // rng.choice([2, 8, 16]))) if vals else []:
                 vals[i] = rng.choice(pool)
             put(R.A(dt, sh, vals))
         elif m == "one":
